@@ -826,6 +826,7 @@ def frames_check(ctx, relevant_kinds, monitor, n_quick, n_thorough, deps, nontri
 
 
 CONT_DEPS = {"Base.v", "BaseProofs.v", "BarState.v", "BarStateProofs.v", "Container.v", "ContainerProofs.v"}
+COVER_DEPS = {"ContainerLife.v", "ContainerProgress.v", "ContainerMatrix.v", "ContainerFlush.v", "ContainerCover.v"}
 
 
 def c05_monitor(case, frames):
@@ -908,7 +909,7 @@ def check_C05(ctx):
                        "queued bars: any number per predecessor, created before or after the predecessor's hand-over"]
     frames_check(ctx, {"CT_FLUSHBAR", "HM_PUSH", "HM_POP", "OUT_ROWS", "OUT_UNEXPECTED", "CT_FRAME", "NOTIFY", "HM_SYNC",
                        "HM_ITERREQ", "CT_ADD", "HM_STATE", "HM_END"},
-                 c05_monitor, 150, 4000, CONT_DEPS | {"GenChecks.v", "gen/GenApi.v", "Props/C05.v"})
+                 c05_monitor, 150, 4000, CONT_DEPS | COVER_DEPS | {"GenChecks.v", "gen/GenApi.v", "Props/C05.v"})
 
 
 import monitors as M
@@ -939,7 +940,7 @@ def check_C17(ctx):
     ctx.assumptions = ["successors are created at any point of the script, before or after the predecessor's hand-over, any number "
                        "per predecessor, chains included; the former D7 witnesses (late successor, second successor) and four "
                        "directed variants run first from corpus/C17"]
-    frames_check(ctx, {"CT_FLUSHBAR", "HM_PUSH", "OUT_ROWS", "CT_ADD", "HM_POP"}, M.c17_monitor, 300, 6000, CONT_DEPS | {"ContainerFlush.v", "Props/C17.v"},
+    frames_check(ctx, {"CT_FLUSHBAR", "HM_PUSH", "OUT_ROWS", "CT_ADD", "HM_POP"}, M.c17_monitor, 300, 6000, CONT_DEPS | COVER_DEPS | {"ContainerFlush.v", "Props/C17.v"},
                  nontrivial=lambda case, frames: any("after=" in l and "after=-1" not in l for l in case["trace"]) and len(frames) >= 2)
 
 
